@@ -406,3 +406,7 @@ PROPS["C17"] = {
                     "task ids are fresh (uuid.New in the callers): a re-added id replaces the channel in code and model alike, the FIFO theorems speak about one incarnation",
                     "LocalCollector.trySlots (the collector-side proof search, same shape as the miner's with allowAhead = 10) is not modelled"],
 }
+PROPS["C17"]["props"].append("MassVerif.Props.C17Order")
+PROPS["C17"]["level_text"] += (" Over whole histories (Props/C17Order): when no task id is added twice, for every open task the reports "
+    "accepted for it, in the order they were reported, are exactly what its waiter has read followed by what is still queued "
+    "(C17_history_order: in order, complete, unduplicated).")
